@@ -424,6 +424,8 @@ class IncompleteHashTree(CompleteBinaryTreeMixin, list):
             # first we provisionally add all hashes to the tree, comparing
             # any duplicates
             for i,h in new_hashes.items():
+                if not (0 <= i < len(self)):
+                    raise IndexError("hash number %d is not in this tree" % (i,))
                 if self[i]:
                     if self[i] != h:
                         raise BadHashError("new hash %r does not match "
@@ -474,7 +476,7 @@ class IncompleteHashTree(CompleteBinaryTreeMixin, list):
                     this_level.discard(siblingnum)
             # we're done!
 
-        except (BadHashError, NotEnoughHashesError):
+        except (BadHashError, NotEnoughHashesError, IndexError):
             for i in remove_upon_failure:
                 self[i] = None
             raise
